@@ -7,6 +7,9 @@ package main
 // (function, "skipIf", cond, "") and `if <cond mentioning nil> { … }` as (function, "onlyIf", cond, ""), at its source
 // position among the calls. A call of one of these methods with an unexpected number of arguments, and a nil test
 // with an else branch, become `unrecognised`.
+// Second list `internalizedAdd`: for each of the nine add…ToSpec methods, in source order, every use of a member of
+// doc.Components — (function, "lookup" | "niltest" | "init" | "store", member, "") — and every "#/components/<kind>/" literal —
+// (function, "prefix", text, ""). An indexed Components expression of another shape becomes `unrecognised`.
 
 import (
 	"bytes"
@@ -16,6 +19,7 @@ import (
 	"go/printer"
 	"go/token"
 	"path/filepath"
+	"sort"
 	"strings"
 )
 
@@ -98,6 +102,80 @@ func extractInternalized(repo string) (string, error) {
 			return true
 		})
 	}
+	// the nine add…ToSpec methods: which member of doc.Components each one looks the name up in, initialises and
+	// stores into, and which "#/components/<kind>/" texts it writes — in source order
+	var addRows []string
+	for _, d := range f.Decls {
+		fd, ok := d.(*ast.FuncDecl)
+		if !ok || fd.Recv == nil || fd.Body == nil {
+			continue
+		}
+		name := fd.Name.Name
+		if !strings.HasPrefix(name, "add") || !strings.HasSuffix(name, "ToSpec") {
+			continue
+		}
+		compMember := func(e ast.Expr) (string, bool) { // doc.Components.<F>
+			se, ok := e.(*ast.SelectorExpr)
+			if !ok {
+				return "", false
+			}
+			inner, ok := se.X.(*ast.SelectorExpr)
+			if !ok || inner.Sel.Name != "Components" {
+				return "", false
+			}
+			if id, ok := inner.X.(*ast.Ident); !ok || id.Name != "doc" {
+				return "", false
+			}
+			return se.Sel.Name, true
+		}
+		stores := map[ast.Node]bool{}
+		type ev struct {
+			pos  token.Pos
+			kind string
+			arg  string
+		}
+		var evs []ev
+		ast.Inspect(fd.Body, func(n ast.Node) bool {
+			switch x := n.(type) {
+			case *ast.AssignStmt:
+				for _, l := range x.Lhs {
+					if ie, ok := l.(*ast.IndexExpr); ok {
+						if m, ok := compMember(ie.X); ok {
+							stores[ie] = true
+							evs = append(evs, ev{ie.Pos(), "store", m})
+						}
+					} else if m, ok := compMember(l); ok {
+						evs = append(evs, ev{l.Pos(), "init", m})
+					}
+				}
+			case *ast.IndexExpr:
+				if m, ok := compMember(x.X); ok && !stores[x] {
+					evs = append(evs, ev{x.Pos(), "lookup", m})
+				} else if !ok {
+					if _, isSel := x.X.(*ast.SelectorExpr); isSel && strings.Contains(src(x.X), "Components") {
+						evs = append(evs, ev{x.Pos(), "unrecognised", ""})
+					}
+				}
+			case *ast.BinaryExpr:
+				if m, ok := compMember(x.X); ok {
+					evs = append(evs, ev{x.Pos(), "niltest", m})
+				}
+			case *ast.BasicLit:
+				if x.Kind == token.STRING && strings.HasPrefix(x.Value, "\"#/components/") {
+					evs = append(evs, ev{x.Pos(), "prefix", strings.Trim(x.Value, "\"")})
+				}
+			}
+			return true
+		})
+		sort.SliceStable(evs, func(i, j int) bool { return evs[i].pos < evs[j].pos })
+		for _, e := range evs {
+			if e.kind == "unrecognised" {
+				addRows = append(addRows, fmt.Sprintf("IRow.unrecognised %q", fset.Position(e.pos).String()))
+			} else {
+				addRows = append(addRows, fmt.Sprintf("IRow.call %s %s %s %s", q(name), q(e.kind), q(e.arg), q("")))
+			}
+		}
+	}
 	var b strings.Builder
 	b.WriteString("-- generated by go/cmd/extract (table Internalized) from openapi3/internalize_refs.go; do not edit\n")
 	b.WriteString("namespace KinModel.Gen\n\ninductive IRow\n  | call (fn callee arg flag : String)\n  | unrecognised (pos : String)\n  deriving DecidableEq, Repr\n\n")
@@ -105,6 +183,14 @@ func extractInternalized(repo string) (string, error) {
 	for i, r := range rows {
 		sep := ","
 		if i == len(rows)-1 {
+			sep = ""
+		}
+		fmt.Fprintf(&b, "  %s%s\n", r, sep)
+	}
+	fmt.Fprintf(&b, "]\n\n-- rows: %d\ndef internalizedAdd : List IRow := [\n", len(addRows))
+	for i, r := range addRows {
+		sep := ","
+		if i == len(addRows)-1 {
 			sep = ""
 		}
 		fmt.Fprintf(&b, "  %s%s\n", r, sep)
